@@ -68,6 +68,16 @@ CHECKS.update({
         text="C20_pruning_spec / C20_pruning_walk hold for every tree and every verdict function over model/Walk.v. On every run git repositories with generated .gitignore files are searched with the root spelled '.', relative, absolute or as a sub-directory, with the option given, taken from the configuration or overridden; rows must be the entries git does not ignore and must equal the model fed git's verdicts.",
         note="Partial: libgit2's matcher is not modelled (verdicts are inputs). The hgignore / dockerignore converters deviate from Mercurial's / Docker's semantics in recorded ways (F37, F38, F41) and are not compared with reference matchers in this round.",
         design="6 C20"),
+    "C10": dict(
+        technique="Coq model of the lexer and the recursive-descent parser (tables regenerated from the source) with a proved termination bound for the lexer + differential test of outcome, error message and whole AST against the real lexer/parser, and of exit status / panic / hang on the binary",
+        text="C10_lexer_total bounds the lexer's iterations for every argument vector; model/Parser.v mirrors parser.rs with every unwrap/index/underflow as an explicit Panic outcome and loops on fuel; on every run thousands of argument vectors (valid queries, token soups, token/character mutations, every function with bad arguments, bad literals) are run through the real lexer+parser and compared with the model, and through the binary: status must be 0, 1 or 2 within 10 s, no panic text, no row after a parse-time rejection.",
+        note="Partial: parser totality (no Panic / OutOfFuel for every token list) is supported by the differential test, not yet by a theorem; the machine stack is not modelled (known finding F51: nesting thousands of levels deep overflows it); evaluation-time aborts are checked on the binary only.",
+        design="6 C10"),
+    "C07": dict(
+        technique="Coq model of get_aggregate_value (f64 via primitive floats, integer parts in Z) with exactness theorems for COUNT/SUM/MIN/MAX and the textbook-variance theorem in Q + differential test of aggregate queries against exact rational arithmetic",
+        text="count/sum/min/max theorems hold for every buffer of canonical integers (overflow stated), the variance loop is proved equal to the textbook formula in exact arithmetic; every generated aggregate query (all nine functions and spellings, five numeric columns, WHERE filters, 0/1/2/many rows) is compared with exact values computed from the same query without aggregates.",
+        note="f64 rounding of AVG/VAR/STDDEV is compared with a 1e-11 relative tolerance on the binary and bit-exactly through the harness; no error-bound theorem for the float results.",
+        design="6 C07"),
 })
 
 ALL = ["C%02d" % i for i in range(1, 21)]
